@@ -91,6 +91,18 @@ def run(ctx):
                     gated = True
         ctx.check(gated, 'R08.3', 'inverse_continuing/push@%s' % ic.where(bi).split(':')[-1] if False else 'inverse_continuing/singular-push', ic.where(bi), ic.path,
                   'a candidate is pushed into the result without passing the limits check for that candidate', found=show(elem, maxdepth=3))
+        # ... and the candidate is not modified between that check and the push
+        root = elem
+        while isinstance(root, tuple) and root[0] in ('idx', 'fld', 'ref', 'deref'):
+            root = root[1]
+        if gated and isinstance(root, tuple) and root[0] == 'var':
+            stale = []
+            for cbi, ct in ic.calls():
+                if (ct['callee'].get('resolved') in cpaths or cname(callee_name(ct)) == 'Constraints::compliant') and \
+                        any(mir.contains(ic.op_term(a, (cbi, None)), lambda x: x == root) for a in ct['args']):
+                    stale += util.stores_between(ic, cbi, ct, root[2], bi)
+            ctx.check(not stale, 'R08.3', 'inverse_continuing/singular-push/fresh', ic.where(bi), ic.path,
+                      'the candidate is modified between its limits check and the push (%s)' % ', '.join(stale), found=', '.join(stale))
     # a solver rewritten without a singular push has nothing to gate; then the instance count is 0 and that is fine
 
     run_dependencies(ctx)
